@@ -289,6 +289,18 @@ theorem time_offset_order (v : XmlTime) (oa ob : Option Int) :
 
 example : (⟨2000, 1, 1, 12, 0, 0, 0, some 60⟩ : XmlDateTime).timeline
     < (⟨2000, 1, 1, 12, 0, 0, 0, none⟩ : XmlDateTime).timeline := by decide
+/-- `XmlTime`: of two in-range same-offset times one has the smaller key (by `time_key_lt_iff`:
+is earlier on the clock) or they are the same value -/
+theorem time_key_trichotomy (a b : XmlTime)
+    (hta : todOK a.hour a.minute a.second a.frac) (htb : todOK b.hour b.minute b.second b.frac)
+    (ho : a.offset = b.offset) :
+    a.timeline < b.timeline ∨ a = b ∨ b.timeline < a.timeline := by
+  by_cases c1 : a.timeline < b.timeline
+  · exact Or.inl c1
+  · by_cases c2 : b.timeline < a.timeline
+    · exact Or.inr (Or.inr c2)
+    · exact Or.inr (Or.inl (time_key_inj a b hta htb ho (by omega)))
+
 example : todOK 23 59 59 5 ∧ (⟨23, 59, 59, 5, some 60⟩ : XmlTime).offset = some 60 := by
   unfold todOK; exact ⟨by omega, rfl⟩
 
